@@ -53,6 +53,8 @@ func (m *ModeBuilder) Build(errs *errlogger.ErrLogger, fset *gotoken.FileSet) *M
 
 	d := dfa.NFAToDFA(start)
 
+	isolateStart(d)
+
 	mergeTransitions(d)
 
 	for _, state := range d.States {
@@ -166,6 +168,37 @@ func normalizeInputs(s *nfa.State) {
 			graph[c] = append(graph[c], states...)
 		}
 	})
+}
+
+// isolateStart makes sure that no transition leads back to the start state.
+// The generated state machine takes "state 0" to mean "at a token boundary":
+// it is where the input may end, and where a new token begins. The start state
+// has no incoming transition after subset construction, but minimization can
+// merge it with a state that is entered again later (e.g. when every rule of
+// the mode starts with the same loop, as in '.* X'). In that case the start
+// state gets a copy of its own.
+func isolateStart(d *dfa.DFA) {
+	start := d.States[0]
+	reentered := false
+	for _, s := range d.States {
+		s.Transitions.ForEach(func(_ any, to *dfa.State) {
+			reentered = reentered || to == start
+		})
+	}
+	if !reentered {
+		return
+	}
+	fresh := &dfa.State{
+		Accept:    start.Accept,
+		NonGreedy: start.NonGreedy,
+		NFAStates: start.NFAStates,
+	}
+	start.Transitions.ForEach(func(input any, to *dfa.State) {
+		fresh.AddTransition(to, input)
+	})
+	start.ID = uint32(len(d.States))
+	d.States = append(d.States, start)
+	d.States[0] = fresh
 }
 
 func mergeTransitions(d *dfa.DFA) {
